@@ -72,7 +72,7 @@ def systematic(asn4):
             yield dict(attr={16: [gen.ext_community(rng, k)]}, nlri=['192.0.2.0/24'])
     for ip in ('0.0.0.0', '255.255.255.255', '1.2.3.4', '10.0.0.255'):
         yield dict(attr={3: ip, 9: ip, 10: [ip, '1.1.1.1']}, nlri=['192.0.2.0/24'])
-    for n in (0, 1, 2, 40):
+    for n in (0, 1, 2, 40, 255, 256, 257, 600):
         yield dict(attr={1: 2, 2: [], 3: '10.0.0.1'}, nlri=[gen.prefix4(rng, 8 + (i % 24), 'rand') for i in range(n)])
         yield dict(withdraw=[gen.prefix4(rng, 8 + (i % 24), 'rand') for i in range(n)])
     yield dict(attr={1: 0, 2: [], 3: '10.0.0.1', 6: ''}, nlri=['192.0.2.0/24'])
